@@ -26,6 +26,11 @@ def main():
         if only and d not in only and not any(d.startswith(o) for o in only):
             continue
         meta = json.load(open(os.path.join(p, "meta.json")))
+        if meta.get("retired"):
+            # a later repair of the tree made this change harmless (its own demonstration passes with it applied)
+            results[d] = {"title": meta.get("title"), "property": meta["property"], "checks": {}, "caught": False, "retired": meta["retired"]}
+            print("%-28s RETIRED %s" % (d, meta["retired"][:90]))
+            continue
         props = meta.get("checks") or [meta["property"]]
         rc, out = sh(["git", "-C", REPO, "apply", os.path.join(p, "patch.diff")])
         if rc != 0:
